@@ -63,3 +63,53 @@ def tokens_of_wrapped(text, indent):
         for t in body.split(' '):
             out.append(t)
     return out
+
+
+class WithId:
+    """anything that carries an identifier"""
+
+    def __init__(self, id):
+        self.id = id
+
+
+def ids_of(objs):
+    return [o.id for o in objs]
+
+
+def two_default_beps():
+    """two OpenMKM BEP relations built without member lists (the usual way: reactions register themselves later);
+    members are then registered: OH_0001 (cleavage) and OH_0003 (synthesis) with the first, CH_0007 (cleavage) with the second"""
+    from pmutt.omkm.reaction import BEP
+    a = BEP(name='OH', slope=0.5, intercept=10., direction='cleavage', descriptor='delta_H')
+    b = BEP(name='CH', slope=0.4, intercept=20., direction='cleavage', descriptor='delta_H')
+    a.cleavage_reactions.append(WithId('OH_0001'))
+    a.synthesis_reactions.append(WithId('OH_0003'))
+    b.cleavage_reactions.append(WithId('CH_0007'))
+    return (a, b)
+
+
+class PhaseSpecies:
+    def __init__(self, name, phase):
+        self.name = name
+        self.phase = phase
+
+
+class PlainReaction:
+    """a reaction as get_reactions_phases sees it: an id (possibly None) and its species"""
+
+    def __init__(self, id, species):
+        self.id = id
+        self.species = species
+
+    def get_species(self, include_TS=True, key='name'):
+        return {s.name: s for s in self.species}
+
+
+def phases_of_reactions(ids):
+    """reactions r_k (k-th has the k-th id of `ids`, None = not numbered yet) that all involve one gas and one surface species:
+    {phase: positions of the reactions listed for it}"""
+    from pmutt.io.omkm import get_reactions_phases
+    gas = PhaseSpecies('H2', 'gas')
+    rxs = [PlainReaction(i, [gas, PhaseSpecies('A%d(S)' % k, 'terrace')]) for k, i in enumerate(ids)]
+    out = get_reactions_phases(rxs)
+    return {ph: [rxs.index(r) for r in lst] for ph, lst in out.items()}
